@@ -50,7 +50,8 @@ def make_small(rng):
     for c in range(k):
         kind = rng.choice(['int_unique', 'int_dup', 'float_nan', 'str', 'str_nan', 'obj_mixed', 'bool',
                            'str_unique', 'all_nan', 'unique_but_one_nan', 'Int64_na', 'boolean_na',
-                           'Float64_na', 'string_na', 'Int64_unique_one_na', 'many_nan_float'])
+                           'Float64_na', 'string_na', 'Int64_unique_one_na', 'many_nan_float',
+                           'categorical_unused', 'datetime_nat'])
         name = 'c%d_%s' % (c, kind)
         if kind == 'int_unique':
             cols[name] = pd.Series(rng.sample(range(10 * n + 5), n), dtype='int64')
@@ -87,6 +88,14 @@ def make_small(rng):
             vals = rng.sample(range(10 * n + 5), n)
             vals[rng.randrange(n)] = pd.NA
             cols[name] = pd.array(vals, dtype='Int64')
+        elif kind == 'categorical_unused':
+            cats = ['c%d' % i for i in range(6)]
+            vals = [None if rng.random() < 0.2 else rng.choice(cats[:3]) for _ in range(n)]
+            cols[name] = pd.Categorical(vals, categories=cats)      # three declared categories never occur
+        elif kind == 'datetime_nat':
+            base = pd.Timestamp('2020-01-01')
+            cols[name] = pd.Series([pd.NaT if rng.random() < 0.2 else base + pd.Timedelta(days=rng.randint(0, n))
+                                    for _ in range(n)])
         elif kind == 'many_nan_float':
             cols[name] = pd.Series([np.nan if rng.random() < 0.6 else float(rng.randint(0, 3)) for _ in range(n)],
                                    dtype='float64')
